@@ -104,7 +104,7 @@ func (r *recSource) Latest(ctx context.Context, url string, n uint64) (uint64, [
 func (r *recSource) Hash(ctx context.Context, url string, n uint64) ([]byte, error) {
 	if r.inject() {
 		r.mu.Lock()
-		r.hash = append(r.hash, "!")
+		r.hash = append(r.hash, fmt.Sprintf("%d=!", n))
 		r.mu.Unlock()
 		return nil, errors.New("injected source fault")
 	}
@@ -112,9 +112,9 @@ func (r *recSource) Hash(ctx context.Context, url string, n uint64) ([]byte, err
 	r.mu.Lock()
 	defer r.mu.Unlock()
 	if err != nil {
-		r.hash = append(r.hash, "!")
+		r.hash = append(r.hash, fmt.Sprintf("%d=!", n))
 	} else {
-		r.hash = append(r.hash, fmt.Sprintf("%x", h))
+		r.hash = append(r.hash, fmt.Sprintf("%d=%x", n, h))
 	}
 	return h, err
 }
